@@ -186,7 +186,16 @@ async def _scenario(sc):
                 tg.start_soon(sibling, i)
             if sc.get("siblings") and tok is not None:
                 await anyio.sleep(0)          # the siblings are under way before this request starts
-            tg.start_soon(feeder)
+            if sc.get("feeder_first"):
+                # "delivery first": every message is put on the stream by a loop CALLBACK (as a transport does) registered
+                # before the request's poll timers exist, so that for a message due exactly on a poll boundary the delivery
+                # callback and that poll's deadline callback run in the SAME event-loop pass, delivery first: the pending
+                # receive() is completed, then the deadline is called on a wait that is already over
+                for t, m in post:
+                    loop.call_at(t0 + t * TICK,
+                                 lambda m=m: in_send.send_nowait(build_message(m, me_actual, written_token() if has_cb else token)))
+            else:
+                tg.start_soon(feeder)
             if cancel is not None and cancel >= 0:
                 tg.start_soon(canceller)
             try:
@@ -416,6 +425,7 @@ def scenario_case(sc):
     return {"D": sc["D"], "me": sc.get("me"), "has_cb": bool(sc.get("has_cb")), "cancel": sc.get("cancel"),
             "cb_raise": sorted(sc.get("cb_raise") or ()), "params": sc.get("params"),
             **({"siblings": sc["siblings"]} if sc.get("siblings") else {}),
+            **({"feeder_first": True} if sc.get("feeder_first") else {}),
             "arrivals": [[t, list(m)] for t, m in sc["arrivals"]]}
 
 
